@@ -159,6 +159,15 @@ func sensitivity(id, repo, root string, main *Ctx) []map[string]any {
 	var out []map[string]any
 	dirs, _ := filepath.Glob(filepath.Join(root, "seeded", id+"-*", "patch.diff"))
 	sort.Strings(dirs)
+	// the other direction: behaviour-preserving refactorings of the property's anchored code
+	// (kept under <root>/benign/<ID>-*/), on which the check must stay silent
+	benign, _ := filepath.Glob(filepath.Join(root, "benign", id+"-*", "patch.diff"))
+	sort.Strings(benign)
+	isBenign := map[string]bool{}
+	for _, b := range benign {
+		isBenign[b] = true
+	}
+	dirs = append(dirs, benign...)
 	self, err := os.Executable()
 	if err != nil {
 		return out
@@ -166,6 +175,9 @@ func sensitivity(id, repo, root string, main *Ctx) []map[string]any {
 	for _, patch := range dirs {
 		name := filepath.Base(filepath.Dir(patch))
 		rec := map[string]any{"seeded_change": name}
+		if isBenign[patch] {
+			rec = map[string]any{"behaviour_preserving_refactoring": name}
+		}
 		tmp, err := os.MkdirTemp("", "hsverif-sens-")
 		if err != nil {
 			continue
@@ -204,15 +216,23 @@ func sensitivity(id, repo, root string, main *Ctx) []map[string]any {
 					}
 				}
 			}
-			if strings.Contains(string(b), "VIOLATION property="+id) {
+			fired := strings.Contains(string(b), "VIOLATION property="+id)
+			switch {
+			case isBenign[patch] && !fired:
+				rec["status"] = "silent (as it should be)"
+			case isBenign[patch]:
+				rec["status"] = "FALSE ALARM"
+				rec["rules"] = rules
+				fmt.Printf("SPECIFICITY-LOST property=%s the check fires on the behaviour-preserving refactoring %s (%s)\n", id, name, strings.Join(rules, ","))
+			case fired:
 				rec["status"] = "detected"
 				rec["rules"] = rules
-			} else {
+			default:
 				rec["status"] = "NOT detected"
 				fmt.Printf("SENSITIVITY-LOST property=%s the seeded change %s is no longer reported\n", id, name)
 			}
 		}()
-		fmt.Printf("sensitivity %s: %v\n", name, rec["status"])
+		fmt.Printf("variant %s: %v\n", name, rec["status"])
 		out = append(out, rec)
 	}
 	main.Stat("sensitivity_runs", len(out))
